@@ -176,7 +176,7 @@ def sv_ref(ty, t):
     return SV(ty, t)
 
 
-REF_TYPES = ('set', 'list', 'dlist', 'pairlist', 'dict', 'fdict', 'graph', 'kripke', 'keys', 'reflist', 'fseq', 'bnode', 'refdict', 'refdict2', 'obdd')
+REF_TYPES = ('set', 'list', 'dlist', 'pairlist', 'dict', 'fdict', 'graph', 'kripke', 'keys', 'reflist', 'fseq', 'bnode', 'refdict', 'refdict2', 'obdd', 'refset')
 # 'dlist': a list without repeated elements that the code only reads (len, iteration, membership)
 
 
@@ -238,6 +238,19 @@ pick = z3.Function('pick', SetH, H)
 
 def nonempty(S):
     return S[pick(S)]
+
+
+pickR = z3.Function('pickR', SetR, I)      # the same for sets of references
+
+
+def nonemptyR(S):
+    return S[pickR(S)]
+
+
+def pickR_axiom():
+    S = z3.Const('S!pickR', SetR)
+    d = z3.Const('d!pickR', I)
+    return z3.ForAll([S, d], z3.Implies(S[d], S[pickR(S)]), patterns=[S[d]])
 
 
 def pick_axiom():
